@@ -1,5 +1,6 @@
 import Jwt.Lemmas.Policy
 import Jwt.Props.C01
+import Jwt.Lemmas.Builder
 /-!
 # C09 — key-strength floor for signing and verification (verification side; signing in C09b)
 -/
@@ -40,6 +41,33 @@ theorem C09_live (a : Alg) (k : KeyItem) (h : strengthOk a k) :
 theorem C09_hs256_bytes (k : KeyItem) (n : Nat) (hk : k.kty = .oct) (hb : k.bits = 8 * n) :
     checkHmac .hs256 k = none ↔ n ≥ 32 := by
   rw [checkHmac_none_iff]; simp [strengthOk, Alg.isHmac, hk, hb]; omega
+
+/-- **Signing never succeeds below the floor**: a token comes out only if the key in force satisfies
+the rule for the algorithm used; and every primitive call `generate` makes is for such a pair. -/
+theorem C09_sign_floor (env : Env) (b : Builder) (t : Bytes) (h : (generate env b).2 = some t) :
+    ∀ k, (genAfterCb b.cfg env.now).2.2.2.key = some k → usedAlg (genAfterCb b.cfg env.now).2.2.2 ≠ .none →
+      strengthOk (usedAlg (genAfterCb b.cfg env.now).2.2.2) k := by
+  intro k hk hne
+  obtain ⟨tr, hg⟩ := generate_some env b t h
+  obtain ⟨H, tok, _, _, _, he, _⟩ := generateCore_ok env b.cfg (some t) tr hg
+  obtain ⟨_, _, hcase⟩ := encodeToken_ok env H _ _ _ tok tr he
+  rcases hcase with ⟨hn, _⟩ | ⟨_, k', sig, hk', hs, _⟩
+  · exact absurd hn hne
+  · rw [hk] at hk'; cases hk'
+    exact (sign_ok env k _ _ sig tr hs).1
+
+theorem C09_sign_gate (env : Env) (k : KeyItem) (a : Alg) (msg : Bytes) (h : ¬ strengthOk a k) :
+    ∃ e, sign env k a msg = (.error e, []) := by
+  unfold sign
+  cases a <;> simp only
+  all_goals first
+    | exact ⟨_, rfl⟩
+    | (cases hg : checkHmac _ k with
+       | some e => exact ⟨e, rfl⟩
+       | none => exact absurd ((checkHmac_none_iff _ k).1 hg).2 h)
+    | (cases hg : checkKeyBits _ k with
+       | some e => exact ⟨e, rfl⟩
+       | none => exact absurd ((checkKeyBits_none_iff _ k).1 hg).2 h)
 
 /-! ### non-vacuity: both sides of each boundary -/
 def oct (n : Nat) : KeyItem := { id := 1, kty := .oct, alg := .none, bits := 8 * n, isPrivate := true, oct := List.replicate n 7 }
